@@ -29,6 +29,14 @@ fixed("C04", "75916f8", ["c04:%s:LT:%s:stall" % (n, o) for n in ("tcp", "unix") 
 fixed("C04", "f1ed07f", ["c04:tcp:ET:timer:stall", "c04:tcp:ET:foreign:stall", "c04:unix:ET:foreign:stall", "c04:tcp:ET:ondata:stall"],
       "ET: a direct Write interrupted by EINTR is cached although the socket stays writable; no edge follows and the backlog never drains (shim phase, profile eintr-first)")
 
+# ---- lifecycle / dial
+fixed("C03", "ba21c7b", ["c03:%s:dial:timeout:no-outcome" % m for m in ("LT", "ET", "ONESHOT")],
+      "DialAsyncTimeout to a listener whose accept queue is full: OnClose(dial timeout) fires but the dial callback is never invoked")
+fixed("C03", "d48acaa", ["c03:%s:dial:refused:reported-success" % m for m in ("LT", "ET", "ONESHOT")],
+      "DialAsync to a closed port: callback invoked with err == nil, then the connection is closed with 'connection refused'")
+fixed("C18", "71ade83", ["c18:stop-hang (seen as 20 s Stop timeouts in C01/C05 harnesses)"],
+      "Stop overtaking a freshly started poller goroutine: the loop's prologue resets p.shutdown to false, Stop blocks forever in g.Wait()")
+
 # ---- inbound
 fixed("C02", "0f4f1ee", ["c02:%s:%s:async:default:spin-no-delivery" % (n, m) for n in ("tcp", "unix") for m in ("ET", "ONESHOT")] +
       ["c02:udp:%s:async:default:datagram-count" % m for m in ("ET", "ONESHOT")],
